@@ -51,6 +51,144 @@ M("p1-swap-line-column", "C02", "fire P1", "src/circuit.rs",
             start_column: unsigned_as_usize_bits(meta.start.1 as u64),""",
   """            start_line: unsigned_as_usize_bits(meta.start.1 as u64),
             start_column: unsigned_as_usize_bits(meta.start.0 as u64),""", "line/column swapped in the recorded location")
+M("p5-merge-through-helper", "C02", "quiet", "src/circuit.rs",
+  """        let mut result = PanicResult::ok();
+        result.has_panicked = self.push_mux(condition, t.has_panicked, f.has_panicked);
+        for (i, (&if_true, &if_false)) in t.panic_type.iter().zip(f.panic_type.iter()).enumerate() {
+            result.panic_type[i] = self.push_mux(condition, if_true, if_false);
+        }
+        for (i, (&if_true, &if_false)) in t.start_line.iter().zip(f.start_line.iter()).enumerate() {
+            result.start_line[i] = self.push_mux(condition, if_true, if_false);
+        }
+        for (i, (&if_true, &if_false)) in
+            t.start_column.iter().zip(f.start_column.iter()).enumerate()
+        {
+            result.start_column[i] = self.push_mux(condition, if_true, if_false);
+        }
+        for (i, (&if_true, &if_false)) in t.end_line.iter().zip(f.end_line.iter()).enumerate() {
+            result.end_line[i] = self.push_mux(condition, if_true, if_false);
+        }
+        for (i, (&if_true, &if_false)) in t.end_column.iter().zip(f.end_column.iter()).enumerate() {
+            result.end_column[i] = self.push_mux(condition, if_true, if_false);
+        }
+        result
+    }
+""",
+  """        PanicResult {
+            has_panicked: self.push_mux(condition, t.has_panicked, f.has_panicked),
+            panic_type: self.mux_usize_bits(condition, &t.panic_type, &f.panic_type),
+            start_line: self.mux_usize_bits(condition, &t.start_line, &f.start_line),
+            start_column: self.mux_usize_bits(condition, &t.start_column, &f.start_column),
+            end_line: self.mux_usize_bits(condition, &t.end_line, &f.end_line),
+            end_column: self.mux_usize_bits(condition, &t.end_column, &f.end_column),
+        }
+    }
+
+    fn mux_usize_bits(
+        &mut self,
+        condition: GateIndex,
+        t: &[GateIndex; USIZE_BITS],
+        f: &[GateIndex; USIZE_BITS],
+    ) -> [GateIndex; USIZE_BITS] {
+        let mut muxed = [0; USIZE_BITS];
+        for (i, (&if_true, &if_false)) in t.iter().zip(f.iter()).enumerate() {
+            muxed[i] = self.push_mux(condition, if_true, if_false);
+        }
+        muxed
+    }
+""", "same merge: record built in one piece, the five vectors through an element-wise helper")
+M("p5-helper-fields-crossed", "C02", "fire P5", "src/circuit.rs",
+  """        let mut result = PanicResult::ok();
+        result.has_panicked = self.push_mux(condition, t.has_panicked, f.has_panicked);
+        for (i, (&if_true, &if_false)) in t.panic_type.iter().zip(f.panic_type.iter()).enumerate() {
+            result.panic_type[i] = self.push_mux(condition, if_true, if_false);
+        }
+        for (i, (&if_true, &if_false)) in t.start_line.iter().zip(f.start_line.iter()).enumerate() {
+            result.start_line[i] = self.push_mux(condition, if_true, if_false);
+        }
+        for (i, (&if_true, &if_false)) in
+            t.start_column.iter().zip(f.start_column.iter()).enumerate()
+        {
+            result.start_column[i] = self.push_mux(condition, if_true, if_false);
+        }
+        for (i, (&if_true, &if_false)) in t.end_line.iter().zip(f.end_line.iter()).enumerate() {
+            result.end_line[i] = self.push_mux(condition, if_true, if_false);
+        }
+        for (i, (&if_true, &if_false)) in t.end_column.iter().zip(f.end_column.iter()).enumerate() {
+            result.end_column[i] = self.push_mux(condition, if_true, if_false);
+        }
+        result
+    }
+""",
+  """        PanicResult {
+            has_panicked: self.push_mux(condition, t.has_panicked, f.has_panicked),
+            panic_type: self.mux_usize_bits(condition, &t.panic_type, &f.panic_type),
+            start_line: self.mux_usize_bits(condition, &t.start_column, &f.start_column),
+            start_column: self.mux_usize_bits(condition, &t.start_column, &f.start_column),
+            end_line: self.mux_usize_bits(condition, &t.end_line, &f.end_line),
+            end_column: self.mux_usize_bits(condition, &t.end_column, &f.end_column),
+        }
+    }
+
+    fn mux_usize_bits(
+        &mut self,
+        condition: GateIndex,
+        t: &[GateIndex; USIZE_BITS],
+        f: &[GateIndex; USIZE_BITS],
+    ) -> [GateIndex; USIZE_BITS] {
+        let mut muxed = [0; USIZE_BITS];
+        for (i, (&if_true, &if_false)) in t.iter().zip(f.iter()).enumerate() {
+            muxed[i] = self.push_mux(condition, if_true, if_false);
+        }
+        muxed
+    }
+""", "start_line merged from start_column")
+M("p5-helper-arms-swapped", "C02", "fire P5", "src/circuit.rs",
+  """        let mut result = PanicResult::ok();
+        result.has_panicked = self.push_mux(condition, t.has_panicked, f.has_panicked);
+        for (i, (&if_true, &if_false)) in t.panic_type.iter().zip(f.panic_type.iter()).enumerate() {
+            result.panic_type[i] = self.push_mux(condition, if_true, if_false);
+        }
+        for (i, (&if_true, &if_false)) in t.start_line.iter().zip(f.start_line.iter()).enumerate() {
+            result.start_line[i] = self.push_mux(condition, if_true, if_false);
+        }
+        for (i, (&if_true, &if_false)) in
+            t.start_column.iter().zip(f.start_column.iter()).enumerate()
+        {
+            result.start_column[i] = self.push_mux(condition, if_true, if_false);
+        }
+        for (i, (&if_true, &if_false)) in t.end_line.iter().zip(f.end_line.iter()).enumerate() {
+            result.end_line[i] = self.push_mux(condition, if_true, if_false);
+        }
+        for (i, (&if_true, &if_false)) in t.end_column.iter().zip(f.end_column.iter()).enumerate() {
+            result.end_column[i] = self.push_mux(condition, if_true, if_false);
+        }
+        result
+    }
+""",
+  """        PanicResult {
+            has_panicked: self.push_mux(condition, t.has_panicked, f.has_panicked),
+            panic_type: self.mux_usize_bits(condition, &t.panic_type, &f.panic_type),
+            start_line: self.mux_usize_bits(condition, &t.start_line, &f.start_line),
+            start_column: self.mux_usize_bits(condition, &t.start_column, &f.start_column),
+            end_line: self.mux_usize_bits(condition, &t.end_line, &f.end_line),
+            end_column: self.mux_usize_bits(condition, &t.end_column, &f.end_column),
+        }
+    }
+
+    fn mux_usize_bits(
+        &mut self,
+        condition: GateIndex,
+        t: &[GateIndex; USIZE_BITS],
+        f: &[GateIndex; USIZE_BITS],
+    ) -> [GateIndex; USIZE_BITS] {
+        let mut muxed = [0; USIZE_BITS];
+        for (i, (&if_true, &if_false)) in t.iter().zip(f.iter()).enumerate() {
+            muxed[i] = self.push_mux(condition, if_false, if_true);
+        }
+        muxed
+    }
+""", "helper selects f when the condition holds")
 M("p1-selector-after-update", "C02", "fire P1", "src/circuit.rs",
   """        let already_panicked = self.panic_gates.result.has_panicked;
         self.panic_gates.result.has_panicked =
@@ -263,6 +401,46 @@ M("g1-ssa-outputs-unchecked", "C16", "fire G1", "src/circuit.rs",
         }
         if self.wires_len()""",
   """        if self.wires_len()""", "output wires are not range-checked")
+M("g1-outputs-found-but-ignored", "C16", "fire G1", "src/circuit.rs",
+  """        for &o in self.output_gates.iter() {
+            if o >= self.wires_len() {
+                return Err(CircuitError::InvalidOutput(o));
+            }
+        }""",
+  """        let wires_len = self.wires_len();
+        let _ = self.output_gates.iter().find(|&&o| o >= wires_len);""", "the search result is dropped: out-of-range outputs pass")
+M("g1-outputs-checked-with-find", "C16", "quiet", "src/circuit.rs",
+  """        for &o in self.output_gates.iter() {
+            if o >= self.wires_len() {
+                return Err(CircuitError::InvalidOutput(o));
+            }
+        }""",
+  """        let wires_len = self.wires_len();
+        if let Some(&o) = self.output_gates.iter().find(|&&o| o >= wires_len) {
+            return Err(CircuitError::InvalidOutput(o));
+        }""", "same check written with find")
+M("g1-gate-verdict-in-a-local-ignored-for-not", "C16", "fire G1", "src/circuit.rs",
+  """            match g {
+                Wire::Input(_) => {}
+                Wire::Xor(x, y) | Wire::And(x, y) => {
+                    if x >= i || y >= i {
+                        return Err(CircuitError::InvalidGate(i));
+                    }
+                }
+                Wire::Not(x) => {
+                    if x >= i {
+                        return Err(CircuitError::InvalidGate(i));
+                    }
+                }
+            }""",
+  """            let ok = match g {
+                Wire::Input(_) => true,
+                Wire::Xor(x, y) | Wire::And(x, y) => x < i && y < i,
+                Wire::Not(x) => x < i || true,
+            };
+            if !ok {
+                return Err(CircuitError::InvalidGate(i));
+            }""", "the verdict travels through a local; the Not operand's comparison never rejects")
 M("g1-not-rejecting", "C16", "fire G1", "src/register_circuit.rs",
   """                Op::Not(Not(x)) => {
                     if x > max_reg {
@@ -554,6 +732,34 @@ M("f1-line-comment-reorder", "C07", "quiet", "src/scan.rs",
   """                        while !(self.is_empty() || self.peek('\\n')) {""", "behaviour-preserving: tests reordered")
 
 # ---------------------------------------------------------------- C15
+M("u2-swapped-lookup-in-or-else", "C15", "quiet", "src/circuit.rs",
+  """        match self.cache.get(gate) {
+            Some(wire) => Some(wire),
+            None => match gate {
+                BuilderGate::Xor(x, y) => self.cache.get(&BuilderGate::Xor(*y, *x)),
+                BuilderGate::And(x, y) => self.cache.get(&BuilderGate::And(*y, *x)),
+            },
+        }""",
+  """        self.cache.get(gate).or_else(|| {
+            let swapped = match *gate {
+                BuilderGate::Xor(x, y) => BuilderGate::Xor(y, x),
+                BuilderGate::And(x, y) => BuilderGate::And(y, x),
+            };
+            self.cache.get(&swapped)
+        })""", "same lookups written with Option::or_else")
+M("u2-or-else-skips-some-and", "C15", "fire U2", "src/circuit.rs",
+  """        match self.cache.get(gate) {
+            Some(wire) => Some(wire),
+            None => match gate {
+                BuilderGate::Xor(x, y) => self.cache.get(&BuilderGate::Xor(*y, *x)),
+                BuilderGate::And(x, y) => self.cache.get(&BuilderGate::And(*y, *x)),
+            },
+        }""",
+  """        self.cache.get(gate).or_else(|| match *gate {
+            BuilderGate::Xor(x, y) => self.cache.get(&BuilderGate::Xor(y, x)),
+            BuilderGate::And(x, y) if x < y => self.cache.get(&BuilderGate::And(y, x)),
+            BuilderGate::And(_, _) => None,
+        })""", "swapped And lookup only when x < y")
 M("u1-raw-and-in-push-or", "C15", "fire U1", "src/circuit.rs",
   """        let xor = self.push_xor(x, y);
         let and = self.push_and(x, y);
@@ -608,6 +814,24 @@ REVERT("revert-sign-extension", "C03", "fire A2", "4aedaf3", "pre-fix tree: exte
 M("a2-cast-extends-with-target-type", "C03", "fire A2", "src/compile.rs",
   """                        extend_to_bits(&mut expr, ty_expr, size_after_cast);""",
   """                        extend_to_bits(&mut expr, ty, size_after_cast);""", "u8 as i16 sign-extends")
+M("a2-cast-keeps-high-bits", "C03", "fire A2", "src/compile.rs",
+  """                    std::cmp::Ordering::Less => expr[(expr.len() - size_after_cast)..].to_vec(),""",
+  """                    std::cmp::Ordering::Less => expr[..size_after_cast].to_vec(),""", "u16 as u8 keeps the high byte")
+M("a2-cast-if-chain", "C03", "quiet", "src/compile.rs",
+  """                match size_after_cast.cmp(&expr.len()) {
+                    std::cmp::Ordering::Equal => expr,
+                    std::cmp::Ordering::Less => expr[(expr.len() - size_after_cast)..].to_vec(),
+                    std::cmp::Ordering::Greater => {
+                        extend_to_bits(&mut expr, ty_expr, size_after_cast);
+                        expr
+                    }
+                }""",
+  """                if size_after_cast < expr.len() {
+                    expr.split_off(expr.len() - size_after_cast)
+                } else {
+                    extend_to_bits(&mut expr, ty_expr, size_after_cast);
+                    expr
+                }""", "same cast, two-way selection (extend_to_bits is a no-op for equal widths)")
 M("a3-div-pow2-to-shift", "C03", "fire A3", "src/compile.rs",
   """                let ty_x = &x.ty;
                 let ty_y = &y.ty;
@@ -825,6 +1049,58 @@ M("o6-negated-unconditional", "C04", "fire O6", "src/circuit.rs",
             }""", "every XOR gate is recorded as a negation of its second operand")
 
 # ---------------------------------------------------------------- C10
+M("r7-guard-on-options", "C10", "quiet", "src/register_circuit.rs",
+  """        if let Some(b) = b {
+            if let Some(&last_use) = self.last_used.get(&b) {
+                if last_use == gate_id {
+                    // This might be None if a == b, as we already removed a previously
+                    if let Some(reg) = self.wire_map.remove(&b) {
+                        if reuse_reg.is_some() {
+                            self.free_regs.push(reg);
+                        } else {
+                            reuse_reg = Some(reg);
+                        }
+                    }
+                }
+            }
+        }""",
+  """        if let Some(b) = b {
+            if self.last_used.get(&b) == Some(&gate_id) {
+                if let Some(reg) = self.wire_map.remove(&b) {
+                    if reuse_reg.is_some() {
+                        self.free_regs.push(reg);
+                    } else {
+                        reuse_reg = Some(reg);
+                    }
+                }
+            }
+        }""", "same guard: get(&b) == Some(&gate_id)")
+M("r7-guard-on-options-negated", "C10", "fire R7", "src/register_circuit.rs",
+  """        if let Some(b) = b {
+            if let Some(&last_use) = self.last_used.get(&b) {
+                if last_use == gate_id {
+                    // This might be None if a == b, as we already removed a previously
+                    if let Some(reg) = self.wire_map.remove(&b) {
+                        if reuse_reg.is_some() {
+                            self.free_regs.push(reg);
+                        } else {
+                            reuse_reg = Some(reg);
+                        }
+                    }
+                }
+            }
+        }""",
+  """        if let Some(b) = b {
+            if self.last_used.get(&b) != Some(&gate_id) {
+                if let Some(reg) = self.wire_map.remove(&b) {
+                    if reuse_reg.is_some() {
+                        self.free_regs.push(reg);
+                    } else {
+                        reuse_reg = Some(reg);
+                    }
+                }
+            }
+        }""", "operand released when this is NOT its last use")
 M("r1-pin-first", "C10", "fire R1", "src/register_circuit.rs",
   """    let mut last_used = HashMap::with_capacity(circ.wires_len());
 
